@@ -26,13 +26,10 @@ def extract_snapshots(dest):
                              "env": {"HWLOC_CPUID_PATH": root, "HWLOC_COMPONENTS": "x86,stop", "HWLOC_THISSYSTEM": "0",
                                      "HWLOC_X86_TOPOEXT_NUMANODES": "1"}})
             else:
-                # combined snapshots: <root>/ has both a sysfs tree and a cpuid directory
-                cpuid = None
-                for dp, dn, fn in os.walk(root):
-                    if "hwloc-cpuid-info" in fn:
-                        cpuid = dp
-                        break
-                env = {"HWLOC_FSROOT": root, "HWLOC_COMPONENTS": "linux,x86,stop", "HWLOC_THISSYSTEM": "0",
+                # combined snapshots: <root>/fsroot is the sysfs tree and <root>/cpuid the CPUID dump (as tests/hwloc/x86+linux/test-topology.sh)
+                fsroot = os.path.join(root, "fsroot") if os.path.isdir(os.path.join(root, "fsroot")) else root
+                cpuid = os.path.join(root, "cpuid") if os.path.isdir(os.path.join(root, "cpuid")) else None
+                env = {"HWLOC_FSROOT": fsroot, "HWLOC_COMPONENTS": "x86,linux,stop", "HWLOC_THISSYSTEM": "0",
                        "HWLOC_DUMPED_HWDATA_DIR": "/var/run/hwloc"}
                 if cpuid:
                     env["HWLOC_CPUID_PATH"] = cpuid
